@@ -7,6 +7,9 @@
 //   c20_mpi mtpool <mode> <W> <n> <seed> [free]   polling pool with W workers chosen through start_polling(h, name)
 //   c20_mpi strace <mode> <ncases> <seed>         the same for poll_singlethreaded (dedicated pool, non-inline
 //                                                 requests): hooks 2001/2002/2009/2011/2004/2005/2010
+//   c20_mpi waitq <mode> <pool> <npairs> <rounds> <seed> <final>
+//                                                 pika::wait() (final=1: last round pika::finalize/stop) against
+//                                                 requests with SLOW continuations; ledger read right after the call
 // PROC also counts, with the hooks, what the real poll_singlethreaded does while a callback of transform_mpi
 // runs in place (registrations from inside a callback, OS threads that touch the single-threaded poller).
 // Output: IN/OUT lines (flushed per case).  A watchdog turns a hang into an OUT line + exit code 4.
@@ -15,6 +18,7 @@
 #include <pika/init.hpp>
 #include <pika/mpi.hpp>
 #include <pika/thread.hpp>
+#include <pika/threading_base/detail/global_activity_count.hpp>
 
 #include <mpi.h>
 
@@ -1018,6 +1022,288 @@ static int do_polloff(int mode, bool pool, char* argv0)
     _exit(0);    // one request is (deliberately) stuck in flight: no orderly shutdown
 }
 
+// ------------------------------------------------------------------ WAITQ
+// pika::wait() / runtime shutdown against requests with SLOW continuations.
+// Every round: n "burst" pairs + one "tail" pair of self-addressed Irecv/Isend through transform_mpi, each followed
+// by a `then` stage that spins (seeded: 3..7 ms for the operation of a pair that is posted first and has to be
+// completed by the poller, 0.3..2 ms for the other one) before it records completion.  One operation of every pair -
+// the receive; for half of the large pairs the send, which then needs the receive to complete - is posted up front
+// (it cannot complete before its partner exists: >= n+1 requests are outstanding at once); the partners of the
+// burst pairs are posted by tasks at seeded moments 1..10 ms later (two or three clusters per round, so that several
+// requests complete at the same time and are handed from the worker that tested them to the other polling
+// workers), the partner of the tail pair only after the whole burst has been delivered (so one request completes
+// alone).  EVERY posting task is spawned before the main OS thread calls pika::wait() (last round of the
+// shutdown variant: pika::finalize(); pika::stop()) - while the burst is being posted - and the per-request ledger
+// is read immediately after that call returns.
+// Ledger per request (one atomic each): 0 nothing, 1 posted (the MPI call is being made), 2 continuation entered,
+// 3 completion recorded.  In addition every running continuation samples the global activity count - the number
+// pika::wait() and shutdown consult - against the number of continuations that are running at that moment.
+namespace wq {
+    static std::vector<std::atomic<int>>* st = nullptr;
+    static std::vector<std::atomic<int>>* runs = nullptr;      // per op: how often its continuation stage ran
+    static std::vector<std::atomic<int>>* issued = nullptr;    // per pair: the send is being posted
+    static std::vector<std::vector<int>> sbuf, rbuf;
+    static std::vector<int> dur_us;
+    static std::atomic<int> E{0}, D{0}, early_posted{0};
+    static std::atomic<long> min_slack{1 << 20};
+    static std::atomic<int> zero_seen{0}, order_bad{0}, premature{0}, badsum{0};
+    // observation hooks of the real poller
+    static std::atomic<int> h_reg{0}, h_tested{0}, h_ready{0}, h_loop2{0}, h_single{0}, cur_out{0}, max_out{0};
+    static std::atomic<std::uint64_t> cb_threads{0};
+
+    static void hook(int site, void const*, std::uint64_t, std::uint64_t)
+    {
+        switch (site)
+        {
+        case 2001:
+        {
+            ++h_reg;
+            int c = ++cur_out;
+            int m = max_out.load();
+            while (c > m && !max_out.compare_exchange_weak(m, c)) {}
+            break;
+        }
+        case 2003: ++h_tested; break;
+        case 2006:
+            ++h_ready;
+            --cur_out;
+            cb_threads |= (1ull << (my_tid() & 63));
+            break;
+        case 2012: ++h_loop2; break;
+        case 2009:
+            ++h_single;
+            ++h_tested;
+            --cur_out;
+            cb_threads |= (1ull << (my_tid() & 63));
+            break;
+        }
+    }
+
+    // the MPI call itself: op 2p = receive of pair p, op 2p+1 = its send
+    struct Post
+    {
+        int op;
+        bool early;
+        int operator()(void* b, int c, MPI_Datatype t, int peer, int tag, MPI_Comm comm, MPI_Request* r) const
+        {
+            int e = 0;
+            if (!(*st)[op].compare_exchange_strong(e, 1)) ++order_bad;    // posted twice
+            if (early) ++early_posted;
+            if (op & 1)
+            {
+                (*issued)[op / 2].store(1);
+                return MPI_Isend(b, c, t, peer, tag, comm, r);
+            }
+            return MPI_Irecv(b, c, t, peer, tag, comm, r);
+        }
+    };
+
+    // the slow continuation
+    static void cont(int op)
+    {
+        ++(*runs)[op];
+        int prev = (*st)[op].exchange(2);
+        if (prev != 1) ++order_bad;    // entered without having been posted, or entered twice
+        ++E;
+        auto t_end = std::chrono::steady_clock::now() + std::chrono::microseconds(dur_us[op]);
+        do {
+            // continuations that entered before the first load and have not left at the third load were
+            // running when the count was read; each of them is covered by its own unit of the count (its
+            // request, not yet un-counted, or the task it runs in)
+            int eb = E.load();
+            std::size_t c = pika::threads::detail::get_global_activity_count();
+            int da = D.load();
+            long slack = (long) c - (long) (eb - da);
+            long m = min_slack.load();
+            while (slack < m && !min_slack.compare_exchange_weak(m, slack)) {}
+            if (c == 0) ++zero_seen;
+            for (int i = 0; i < 400; ++i) __builtin_ia32_pause();
+        } while (std::chrono::steady_clock::now() < t_end);
+        if (!(op & 1))
+        {
+            int k = op / 2;
+            if (!(*issued)[k].load()) ++premature;
+            auto& r = rbuf[k];
+            for (size_t i = 0; i < r.size(); ++i)
+                if (r[i] != pattern(k, i))
+                {
+                    ++badsum;
+                    break;
+                }
+        }
+        (*st)[op].store(3);
+        ++D;
+    }
+}    // namespace wq
+
+static int do_waitq(int mode, bool pool, int n, int rounds, std::uint64_t seed, int final_shutdown, char* argv0)
+{
+    using clk = std::chrono::steady_clock;
+    Rng rng(seed * 7561 + mode * 131 + (pool ? 17 : 0) + 3);
+    std::ostringstream hl;
+    hl << "OUT WAITQ m" << mode << "p" << (pool ? 1 : 0) << "f" << final_shutdown;
+    std::string const tag = hl.str();
+    g_hang_line = tag;
+    start_watchdog(120);
+    int const per = n + 1;    // n burst pairs + the tail pair
+    int const npairs = rounds * per;
+    int const total = 2 * npairs;
+    std::vector<Ledger> led(total);
+    g_led = &led;
+    g_on_value = nullptr;
+    std::vector<std::atomic<int>> st(total), runs(total), issued(npairs);
+    wq::st = &st;
+    wq::runs = &runs;
+    wq::issued = &issued;
+    wq::sbuf.resize(npairs);
+    wq::rbuf.resize(npairs);
+    wq::dur_us.resize(total);
+    std::vector<int> send_first(npairs, 0);    // which operation of the pair is posted up front
+    for (int p = 0; p < npairs; ++p)
+    {
+        size_t len = (rng.below(5) == 0) ? 20000 + rng.below(50000) : 1 + rng.below(600);
+        wq::sbuf[p].resize(len);
+        wq::rbuf[p].assign(len, -1);
+        for (size_t i = 0; i < len; ++i) wq::sbuf[p][i] = pattern(p, i);
+        send_first[p] = (len >= 20000 && rng.below(2) == 0) ? 1 : 0;
+        wq::dur_us[2 * p + send_first[p]] = 3000 + (int) rng.below(4001);
+        wq::dur_us[2 * p + 1 - send_first[p]] = 300 + (int) rng.below(1701);
+    }
+    start_runtime(mode, pool, argv0);
+    pika::verif::hook.store(&wq::hook, std::memory_order_release);
+    g_phase = 1;
+    run_on_pika([] { mpi::start_polling(mpi::exception_mode::no_handler); });
+    g_phase = 2;
+    MPI_Comm comm = MPI_COMM_WORLD;
+    static std::vector<std::unique_ptr<Op>> ops;
+    ops.clear();
+    ops.resize(total);
+    bool stopped = false;
+    for (int rd = 0; rd < rounds; ++rd)
+    {
+        int const base = rd * per;
+        for (int j = 0; j < per; ++j)
+        {
+            int p = base + j;
+            ops[2 * p].reset(new Op(ex::connect(
+                ex::unique_any_sender<>(
+                    mpi::transform_mpi(ex::just((void*) wq::rbuf[p].data(), (int) wq::rbuf[p].size(), MPI_INT, 0,
+                                           1000 + p, comm),
+                        wq::Post{2 * p, send_first[p] == 0}) |
+                    ex::then([p] { wq::cont(2 * p); })),
+                Rcv{2 * p})));
+            ops[2 * p + 1].reset(new Op(ex::connect(
+                ex::unique_any_sender<>(
+                    mpi::transform_mpi(ex::just((void*) wq::sbuf[p].data(), (int) wq::sbuf[p].size(), MPI_INT, 0,
+                                           1000 + p, comm),
+                        wq::Post{2 * p + 1, send_first[p] == 1}) |
+                    ex::then([p] { wq::cont(2 * p + 1); })),
+                Rcv{2 * p + 1})));
+        }
+        bool const shut = final_shutdown && rd == rounds - 1;
+        int const early_target = base + per;              // every up-front operation up to this round has been posted
+        int const burst_target = 2 * base + 2 * n;        // everything before the tail pair has been recorded
+        auto const t0 = clk::now();
+        for (int j = 0; j < per; ++j)
+        {
+            int e = 2 * (base + j) + send_first[base + j];
+            spawn([e] { ex::start(*ops[e]); });
+        }
+        int const nclust = 2 + (int) rng.below(2);
+        std::uint64_t cl[3] = {1000 + rng.below(9000), 1000 + rng.below(9000), 1000 + rng.below(9000)};
+        for (int j = 0; j < n; ++j)
+        {
+            int l = 2 * (base + j) + 1 - send_first[base + j];
+            auto at = t0 + std::chrono::microseconds(cl[rng.below(nclust)] + rng.below(150));
+            spawn([l, at, early_target] {
+                auto dl = clk::now() + 20s;
+                while ((wq::early_posted.load() < early_target || clk::now() < at) && clk::now() < dl)
+                    pika::this_thread::yield();
+                ex::start(*ops[l]);
+            });
+        }
+        {
+            int l = 2 * (base + n) + 1 - send_first[base + n];
+            spawn([l, burst_target, early_target] {
+                auto dl = clk::now() + 20s;
+                while ((wq::early_posted.load() < early_target || wq::D.load() < burst_target) && clk::now() < dl)
+                    pika::this_thread::yield();
+                ex::start(*ops[l]);
+            });
+        }
+        g_phase = 10 + rd;
+        // every posting task exists: neither call may return before all of them have run, every request they
+        // post has completed and its continuation has run
+        if (!shut) { pika::wait(); }
+        else
+        {
+            pika::finalize();
+            pika::stop();
+            stopped = true;
+        }
+        int s_posted = 0, s_entered = 0, s_recorded = 0;
+        int const upto = 2 * (base + per);
+        for (int o = 0; o < upto; ++o)
+        {
+            int v = st[o].load();
+            if (v >= 1) ++s_posted;
+            if (v >= 2) ++s_entered;
+            if (v == 3) ++s_recorded;
+        }
+        std::size_t act = pika::threads::detail::get_global_activity_count();
+        std::printf("%s.r%d kind=%s expected=%d posted=%d entered=%d recorded=%d undelivered=%d unposted=%d act_after=%zu "
+                    "tested=%d ready=%d\n",
+            tag.c_str(), rd, shut ? "shutdown" : "wait", upto, s_posted, s_entered, s_recorded, s_posted - s_recorded,
+            upto - s_posted, act, wq::h_tested.load(), wq::h_ready.load());
+        std::fflush(stdout);
+        g_phase = 100 + rd;
+        // whatever the call did: the next round starts from a quiescent state
+        for (int i = 0; i < 800 && wq::D.load() < upto; ++i) std::this_thread::sleep_for(25ms);
+        if (wq::D.load() < upto)
+        {
+            std::printf("%s hang=1 phase=%d recorded=%d expected=%d\n", tag.c_str(), g_phase.load(), wq::D.load(), upto);
+            std::fflush(stdout);
+            _exit(4);
+        }
+        if (!stopped) std::this_thread::sleep_for(2ms);    // a duplicate signal, if any, would come now
+    }
+    int lost = 0, sigbad = 0, errs = 0;
+    for (int i = 0; i < total; ++i)
+    {
+        int s = led[i].nval + led[i].nerr + led[i].nstop;
+        if (s == 0) ++lost;
+        if (s > 1 || runs[i].load() > 1) ++sigbad;
+        errs += led[i].nerr + led[i].nstop;
+    }
+    std::size_t work_after = mpi::get_work_count();
+    int const ready = wq::h_ready.load(), loop2 = wq::h_loop2.load();
+    std::printf("%s summary rounds=%d total=%d lost=%d multi=%d errs=%d premature=%d badsum=%d order_bad=%d min_slack=%ld "
+                "zero_seen=%d work_after=%zu reg=%d tested=%d ready=%d loop1=%d loop2=%d single_hits=%d max_out=%d "
+                "cb_threads=%d\n",
+        tag.c_str(), rounds, total, lost, sigbad, errs, wq::premature.load(), wq::badsum.load(), wq::order_bad.load(),
+        wq::min_slack.load(), wq::zero_seen.load(), work_after, wq::h_reg.load(), wq::h_tested.load(), ready,
+        ready - loop2, loop2, wq::h_single.load(), wq::max_out.load(), __builtin_popcountll(wq::cb_threads.load()));
+    std::fflush(stdout);
+    if (stopped)
+    {
+        // the runtime is gone while polling was (deliberately) never disabled: no orderly teardown
+        g_finished = true;
+        std::printf("%s shutdown=ok\n", tag.c_str());
+        std::fflush(stdout);
+        _exit(0);
+    }
+    g_phase = 200;
+    run_on_pika([] { mpi::stop_polling(); });
+    g_phase = 201;
+    pika::finalize();
+    pika::stop();
+    pika::verif::hook.store(nullptr, std::memory_order_release);
+    g_finished = true;
+    std::printf("%s shutdown=ok\n", tag.c_str());
+    std::fflush(stdout);
+    return 0;
+}
+
 int main(int argc, char** argv)
 {
     if (argc < 3) return 2;
@@ -1046,6 +1332,9 @@ int main(int argc, char** argv)
         g_mt_nohold = argc >= 7 && std::string(argv[6]) == "free";
         rc = do_mtpool(mode, std::atoi(argv[3]), std::atoi(argv[4]), std::strtoull(argv[5], nullptr, 10), argv[0]);
     }
+    else if (cmd == "waitq" && argc >= 8)
+        rc = do_waitq(mode, std::atoi(argv[3]) != 0, std::atoi(argv[4]), std::atoi(argv[5]),
+            std::strtoull(argv[6], nullptr, 10), std::atoi(argv[7]), argv[0]);
     MPI_Finalize();
     return rc;
 }
